@@ -72,11 +72,18 @@ def markLast (a : Aid) (r : Res) : List MAcq → List MAcq
     if xs.any (fun q => q.issuer = a) then x :: markLast a r xs
     else if x.issuer = a then { x with waited := true, res := r } :: xs else x :: xs
 
-/-- MutexAcquisitionImpl::wait_for(issuer, -1): `register_simcall; if (mutex_->get_owner() == issuer_) finish();`
-(the test is on the owner, not on `granted_`).  Returns the result delivered now, if any. -/
-def Mutex.waitFor (m : Mutex) (a : Aid) (r : Res) : Mutex × Option Res :=
-  if m.owner = some a then (m, some r)
+/-- MutexAcquisitionImpl::wait_for(issuer, -1): `register_simcall; if (granted_) finish();`.
+`granted` = `is_granted()` of the acquisition being waited on: what `lock_async` returned for it, or true once `unlock()`
+handed the mutex to it (an acquisition is granted iff it left / never entered `ongoing_acquisitions_`, see `isGranted`).
+Returns the result delivered now, if any.  (Before the repair of finding `mutex-relock-by-owner-returns` the test was
+`mutex_->get_owner() == issuer_`: `Mutex.waitForPre` below.) -/
+def Mutex.waitFor (m : Mutex) (a : Aid) (r : Res) (granted : Bool) : Mutex × Option Res :=
+  if granted then (m, some r)
   else ({ m with queue := markLast a r m.queue }, none)
+
+/-- `is_granted()` of the acquisition that actor `a` holds on `m` and has not waited on yet (split path): granted iff it
+is not (or no longer) in `ongoing_acquisitions_`. -/
+def Mutex.isGranted (m : Mutex) (a : Aid) : Bool := !(m.queue.any (fun q => q.issuer = a))
 
 /-- MutexImpl::try_lock -/
 def Mutex.tryLock (m : Mutex) (a : Aid) : Mutex × Bool :=
@@ -98,23 +105,23 @@ def Mutex.unlock (m : Mutex) (a : Aid) : Except Err (Mutex × Option (Aid × Res
 
 /-- `lock_async(issuer)->wait_for(issuer, -1)` in one simcall (Mutex::lock outside MC; the re-lock of a cond wait) -/
 def Mutex.lock (m : Mutex) (a : Aid) (r : Res) : Mutex × Option Res :=
-  (m.lockAsync a).1.waitFor a r
+  (m.lockAsync a).1.waitFor a r (m.lockAsync a).2
 
-/-! ### variant for the PROPOSED fix of finding `mutex-relock-by-owner-returns` (props/C14/fix_series/01-mutex-relock.patch)
+/-! ### the code BEFORE the repair of finding `mutex-relock-by-owner-returns` (props/C14/fix_series/01-mutex-relock.patch)
 
-NOT the current code and used by no driver: `MutexAcquisitionImpl::wait_for` testing `granted_` instead of
-`mutex_->get_owner() == issuer_`.  `granted` = `is_granted()` of the acquisition being waited on (for the one-simcall
-`lock`: what `lock_async` just returned).  The two variants differ only when the owner of a NON-recursive mutex locks it
-again: the acquisition is queued, not granted — the current code returns at once, the fixed code blocks (as under the
-model checker, whose MUTEX_WAIT is enabled iff `is_granted()`).  When the fix is applied to /repo, `Mutex.waitFor` /
-`Mutex.lock` must become these (see props/C14/NOTES.md, "after the fix"). -/
+NOT the current code and used by no driver; kept for the regression statements (C04 `relock_pre_fix_returns`, C14
+`single_simcall_is_atomic_split_prefix_counterexample`).  `MutexAcquisitionImpl::wait_for` tested
+`mutex_->get_owner() == issuer_` instead of `granted_`.  The two variants differ only when the owner of a NON-recursive
+mutex locks it again: the acquisition is queued, not granted — the old code returned at once (leaving a stale acquisition
+at the head of the queue), the repaired code blocks (as under the model checker, whose MUTEX_WAIT is enabled iff
+`is_granted()`). -/
 
-def Mutex.waitForFixed (m : Mutex) (a : Aid) (r : Res) (granted : Bool) : Mutex × Option Res :=
-  if granted then (m, some r)
+def Mutex.waitForPre (m : Mutex) (a : Aid) (r : Res) : Mutex × Option Res :=
+  if m.owner = some a then (m, some r)
   else ({ m with queue := markLast a r m.queue }, none)
 
-def Mutex.lockFixed (m : Mutex) (a : Aid) (r : Res) : Mutex × Option Res :=
-  (m.lockAsync a).1.waitForFixed a r (m.lockAsync a).2
+def Mutex.lockPre (m : Mutex) (a : Aid) (r : Res) : Mutex × Option Res :=
+  (m.lockAsync a).1.waitForPre a r
 
 /-! ## Semaphore  (SemaphoreImpl.cpp) -/
 
@@ -345,7 +352,7 @@ def World.step (w : World) : Ev → Except Err (World × Outs)
     let (mu, g) := (w.mutexes m).lockAsync a
     .ok ({ w with mutexes := upd w.mutexes m mu }, [(a, .flag g)])
   | .mutexWait a m =>
-    let (mu, r) := (w.mutexes m).waitFor a .unit
+    let (mu, r) := (w.mutexes m).waitFor a .unit ((w.mutexes m).isGranted a)
     .ok ({ w with mutexes := upd w.mutexes m mu }, optOut a r)
   | .tryLock a m =>
     let (mu, b) := (w.mutexes m).tryLock a
